@@ -14,7 +14,7 @@ import (
 )
 
 type c17Op struct {
-	Op  string `json:"op"` // push pushForeign pop popN peek peekN empty
+	Op  string `json:"op"` // push pushForeign pop popN peek peekN empty repush mutate
 	K   int    `json:"k,omitempty"`
 	Stz string `json:"stz,omitempty"`
 }
@@ -32,12 +32,18 @@ func genC17(t *rapid.T) c17Case {
 	ops := make([]c17Op, 0, n)
 	size := 0 // approximate model length, used to draw k around the interesting boundary
 	for i := 0; i < n; i++ {
-		kind := rapid.SampledFrom([]string{"push", "push", "push", "pushForeign", "pop", "popN", "peek", "peekN", "empty"}).Draw(t, "op")
+		kind := rapid.SampledFrom([]string{"push", "push", "push", "pushForeign", "pop", "popN", "peek", "peekN", "empty", "repush", "mutate"}).Draw(t, "op")
 		op := c17Op{Op: kind}
 		switch kind {
 		case "push":
 			op.Stz = rapid.StringMatching(`[a-c]{0,3}`).Draw(t, "stz")
 			size++
+		case "repush": // push an entry the caller already holds (pushed before, or returned by a pop or a peek)
+			op.K = rapid.IntRange(0, 60).Draw(t, "which")
+			size++
+		case "mutate": // the caller changes an entry it owns (one it built for Push, or one a pop handed back)
+			op.K = rapid.IntRange(0, 60).Draw(t, "which")
+			op.Stz = rapid.StringMatching(`[x-z]{1,2}`).Draw(t, "stz")
 		case "popN", "peekN":
 			switch rapid.IntRange(0, 5).Draw(t, "kclass") {
 			case 0:
@@ -107,11 +113,44 @@ func runC17(c c17Case) vh.Result {
 		}
 		return ps, ids
 	}
+	// entries the caller holds: built for Push, or handed back by the queue; owned = not (any more) part of the queue
+	// by reference, so that changing it is the caller's own business
+	var held []*stanza.UnAckedStz
+	var owned []bool
+	hold := func(q stanza.Queueable, own bool) {
+		if u, ok := q.(*stanza.UnAckedStz); ok && u != nil {
+			held = append(held, u)
+			owned = append(owned, own)
+		}
+	}
+	repushes, mutations := 0, 0
 	for i, op := range c.Ops {
 		before, beforeIds := snapshot()
 		switch op.Op {
+		case "repush":
+			if len(held) == 0 {
+				break
+			}
+			u := held[op.K%len(held)]
+			want := u.Stz
+			if err := q.Push(u); err != nil {
+				res.Fail("push-error", "step %d push of a held entry returned error %v", i, err)
+			}
+			repushes++
+			model = append(model, want)
+		case "mutate":
+			if len(held) == 0 {
+				break
+			}
+			if k := op.K % len(held); owned[k] {
+				held[k].Stz = op.Stz
+				held[k].Id = -7 - i
+				mutations++
+			}
 		case "push":
-			err := q.Push(&stanza.UnAckedStz{Id: 1000 + i, Stz: op.Stz})
+			u := &stanza.UnAckedStz{Id: 1000 + i, Stz: op.Stz}
+			hold(u, true)
+			err := q.Push(u)
 			if err != nil {
 				res.Fail("push-error", "step %d push returned error %v", i, err)
 			}
@@ -127,6 +166,7 @@ func runC17(c c17Case) vh.Result {
 		case "pop":
 			pops++
 			got := q.Pop()
+			hold(got, true)
 			if len(model) == 0 {
 				if got != nil {
 					res.Fail("pop-empty", "step %d: Pop on empty queue returned %v", i, got)
@@ -158,6 +198,9 @@ func runC17(c c17Case) vh.Result {
 				n = len(model)
 			}
 			want := model[:n]
+			for _, g := range got {
+				hold(g, op.Op == "popN")
+			}
 			ps, ids, err := c17Payloads(got)
 			if err != nil {
 				res.Fail("popn-type", "step %d %s(%d): %v", i, op.Op, op.K, err)
@@ -180,6 +223,7 @@ func runC17(c c17Case) vh.Result {
 		case "peek":
 			peeks++
 			got := q.Peek()
+			hold(got, false)
 			if len(model) == 0 {
 				if got != nil {
 					res.Fail("peek-empty", "step %d: Peek on empty queue returned %v", i, got)
@@ -202,7 +246,7 @@ func runC17(c c17Case) vh.Result {
 		if !eqStrings(after, model) {
 			res.Fail("contents", "step %d (%s): queue holds %q, model %q", i, op.Op, after, model)
 		}
-		if op.Op == "peek" || op.Op == "peekN" || op.Op == "empty" || op.Op == "pushForeign" {
+		if op.Op == "peek" || op.Op == "peekN" || op.Op == "empty" || op.Op == "pushForeign" || op.Op == "mutate" {
 			if !eqStrings(before, after) || fmt.Sprint(beforeIds) != fmt.Sprint(afterIds) {
 				res.Fail("peek-modifies", "step %d: %s changed the queue from %q%v to %q%v", i, op.Op, before, beforeIds, after, afterIds)
 			}
@@ -218,6 +262,12 @@ func runC17(c c17Case) vh.Result {
 		}
 	}
 	res.NonTrivial = poppedAfterRefill || (peeks > 0 && pops > 0)
+	if repushes > 0 {
+		res.Label("push-of-held-entry")
+	}
+	if mutations > 0 {
+		res.Label("caller-changes-own-entry")
+	}
 	if poppedAfterRefill {
 		res.Label("pop-after-empty-and-refill")
 	}
@@ -229,7 +279,7 @@ func runC17(c c17Case) vh.Result {
 
 var c17 = vh.Define(&vh.Def[c17Case]{
 	Property: "C17", Name: "fifo",
-	Rule: "rapid-generated operation sequences (1-40 ops over push, push of a foreign Queueable, pop, popN(k), peek, peekN(k), empty; k drawn from negative / 0 / exactly the length / beyond / small) applied to stanza.UnAckQueue and to a reference slice, compared after every step; non-trivial = a pop/popN after the queue was emptied and refilled, or a sequence mixing peeks and pops; distinct = distinct operation sequences (SHA-256 of the case)",
+	Rule: "rapid-generated operation sequences (1-40 ops over push, push of a foreign Queueable, pop, popN(k), peek, peekN(k), empty, push of an entry the caller already holds (pushed before or returned by a pop or peek), the caller overwriting an entry it owns (built for Push or handed back by a pop); k drawn from negative / 0 / exactly the length / beyond / small) applied to stanza.UnAckQueue and to a reference slice, compared after every step; non-trivial = a pop/popN after the queue was emptied and refilled, or a sequence mixing peeks and pops; distinct = distinct operation sequences (SHA-256 of the case)",
 	Quick: 20000, Thorough: 2000000,
 	Gen: genC17, Run: runC17,
 })
